@@ -1,4 +1,5 @@
 mod bdd;
+mod binscr;
 mod cbt;
 mod ckks;
 mod core;
@@ -154,6 +155,21 @@ fn main() {
             }
             out.flush().unwrap();
             println!("ks: {} events", cases.len());
+        }
+        // binscr <descs.ndjson> <events.ndjson>
+        "binscr" => {
+            let cases = read_ndjson(&args[2]);
+            let mut out = BufWriter::new(std::fs::File::create(&args[3]).unwrap());
+            for (idx, c0) in cases.iter().enumerate() {
+                let mut c = c0.clone();
+                if c.get("id").is_none() {
+                    c["id"] = serde_json::json!(idx + 1);
+                }
+                let ev = binscr::run_binscr(&c);
+                writeln!(out, "{}", serde_json::to_string(&ev).unwrap()).unwrap();
+            }
+            out.flush().unwrap();
+            println!("binscr: {} events", cases.len());
         }
         // cbt <descs.ndjson> <events.ndjson>
         "cbt" => {
